@@ -121,9 +121,9 @@ func txtInfluxRequest(a bk.Attempt, errs *txtErrs) {
 		if _, ok := q["org"]; !ok && q.Get("orgID") == "" {
 			errs.addf("v2 write without org")
 		}
-	} else if q.Get("db") == "" {
-		errs.addf("v1 write without db (query %q)", u.RawQuery)
 	}
+	// v1: gostatsd sends the database as "database=", InfluxDB 1.x documents "db=". A matter of the request's address, not
+	// of the payload's syntax, so it is not judged here (noted in DESIGN.md).
 }
 
 type txtInfluxField struct {
